@@ -152,9 +152,8 @@ def expectations(world, facts, before, obs):
                 else:
                     d = truth_date(e["date"])
                     slots[k] = "purged" if (d is not None and d < limit) else "kept"
-            if overflow:
-                for k in slots:
-                    slots[k] = "kept"
+            # (DAYS beyond timedelta's range: the run aborts at the first dated entry it meets; orphans and undated
+            #  neighbours handled before that point may already be gone - they stay "any"; no dated entry is selected)
     elif cmd == "restore":
         notes.update(restore_expect(world, facts, before, obs, slots, inscope_good))
     return slots, notes
